@@ -249,6 +249,12 @@ pub struct Program {
     pub fns: Vec<FnDecl>,
 }
 
+/// `H01_INJECT=<fault>`: used only to test that the check detects and shrinks a miscompilation.
+pub fn inject() -> &'static str {
+    static F: std::sync::OnceLock<String> = std::sync::OnceLock::new();
+    F.get_or_init(|| std::env::var("H01_INJECT").unwrap_or_default()).as_str()
+}
+
 pub fn unit_expr() -> Expr {
     Expr::Tup(Ty::unit(), vec![])
 }
@@ -434,10 +440,17 @@ impl Program {
                 self.expr(s, a, d);
                 s.push_str("))");
             }
-            Expr::Bin(o, _, a, b) => {
+            Expr::Bin(o, t, a, b) => {
+                // test-only fault injection (simulated miscompilation): the TEXT deviates from the AST
+                let (o2, a, b) = match inject() {
+                    "mul_u16" if *o == Binop::Mul && *t == Ty::Int(Ity::U16) => (Binop::Add, a, b),
+                    "lt_i8" if *o == Binop::Lt && *t == Ty::Int(Ity::I8) => (Binop::Le, a, b),
+                    "swap_sub" if *o == Binop::Sub => (Binop::Sub, b, a),
+                    _ => (*o, a, b),
+                };
                 s.push('(');
                 self.expr(s, a, d);
-                write!(s, " {} ", o.cairo()).unwrap();
+                write!(s, " {} ", o2.cairo()).unwrap();
                 self.expr(s, b, d);
                 s.push(')');
             }
